@@ -16,12 +16,17 @@
    * closing / flushing a write handle cannot unlink the entries chained behind the file: the header sector written by
      `adfFileFlush` carries the chain link, parent and protection words of the sector as it is on the disk, whatever the
      (possibly stale) copy in the handle says (the defect repaired by 5ae3d82), for every disk, handle and fault schedule.
+   * SUCCESS path, first step of the tree refinement: on a healthy device, when `adfCreateFile` has linked a new entry into
+     an empty hash slot and written its header, the directory on the disk is valid, its slot holds a one-entry chain, the
+     entry matches the requested name (the name bytes written are the name bytes read back, proved at byte level), and the
+     library's lookup of that name returns the new block (`C02_created_file_is_linked`, `C02_created_file_is_found`).
   Everything else of C02 — the full tree equality over histories, successful delete/rename/move, moving a directory into
   its own subtree, the DIRCACHE variants, free block counts — is decided on the real code by the history checks against the reference tree model
   (tools/spec.py) and the independent decoder, with the model tied trace-exactly.  (MANIFEST: partial.)
 -/
 import AdfProofs.NamespaceLemmas
 import AdfProofs.FlushLemmas
+import AdfProofs.CreateFound
 import AdfProofs.RefusalLemmas
 import AdfProofs.WriteReadLemmas
 import AdfProps.C15
@@ -142,5 +147,36 @@ theorem C02_flush_keeps_chain_link (c : Cfg) (h : FileH) (s : St) (hwf : BlkWF h
 
 /-- the hypothesis is met by every header the library decodes from a sector -/
 example (bytes : Bytes) : BlkWF (blkOfBytes bytes) := blkOfBytes_wf bytes
+
+/-- **A created file is linked under its name** (success path).  Healthy device, writable volume without directory cache;
+    `parent` is the valid directory block stored at `nParent` (its self pointer — or the root position — names that sector),
+    the hash slot of `name` in it is empty, and every block the bitmap has free is a block of the volume other than the
+    directory.  Whenever the first half of `adfCreateFile` (link + header write) succeeds, the disk holds the directory,
+    valid, with the slot pointing to a block `b`, and at `b` a valid entry block with link 0 that matches `name`. -/
+theorem C02_created_file_is_linked (c : Cfg) (v nParent : Nat) (name : Bytes) (parent : Blk) (s : St)
+    (hnc : isDIRCACHE (c.vol v).dosType = false) (hf : s.faultAt = none) (hrw : (c.vol v).readOnly = false)
+    (hpar : EntryAt c s.disk v nParent parent) (hkey : dirKey (c.vol v) parent = nParent)
+    (hslot : parent.hash (hashName (useIntl (c.vol v).dosType) name) = 0)
+    (hsmall : ∀ k, bmIsFree (s.mem.vol v).bitmapTable k = true → k < 4294967296)
+    (hvol : ∀ k, bmIsFree (s.mem.vol v).bitmapTable k = true → 2 ≤ k → Readable c v k ∧ vsect c v k ≠ vsect c v nParent) :
+    Post AnyFault c (createFileLink v nParent name) s (fun r s' => r.2.2.isSome = true →
+      ∃ b par' hdr, EntryAt c s'.disk v nParent par' ∧
+        ChainOn c s'.disk v (par'.hash (hashName (useIntl (c.vol v).dosType) name)) [(b, hdr)] ∧
+        nameMatches (useIntl (c.vol v).dosType) name hdr ∧ s'.faultAt = none) :=
+  createFileLink_establishes c v nParent name parent s hnc hf hrw hpar hkey hslot hsmall hvol
+
+/-- … and in such a state the library's own lookup of the name returns that block -/
+theorem C02_created_file_is_found (c : Cfg) (v : Nat) (par' : Blk) (name : Bytes) (b : Nat) (hdr : Blk) (s : St)
+    (hf : s.faultAt = none)
+    (hch : ChainOn c s.disk v (par'.hash (hashName (useIntl (c.vol v).dosType) name)) [(b, hdr)])
+    (hm : nameMatches (useIntl (c.vol v).dosType) name hdr) :
+    Post (fun _ => False) c (nameToEntryBlk v par' name) s (fun r _ => r.1 = some b ∧ r.2.1 = hdr) :=
+  created_entry_found c v par' name b hdr s hf hch hm
+
+/-- the byte-level fact underneath: a block that agrees with the freshly built entry on the name area is matched by a
+    lookup of the name — for every name (any bytes, any length; 30 significant) and both folding tables -/
+theorem C02_name_written_is_name_matched (intl : Bool) (name : Bytes) (b : Blk) (h : SameNameArea (newEntryBase name) b) :
+    nameMatches intl name b :=
+  newEntry_nameMatches intl name b h
 
 end Adf.C02
